@@ -124,6 +124,11 @@ def emit_stmts(o, stmts):
 _n = [0]
 
 
+PRESETS = []       # (object id, field, value) assigned by pre_randomize during the current call
+POST_SNAPS = []    # (object id, values of every scalar of the tree) as seen by post_randomize
+SNAP = [None]
+
+
 def build_classes(scn):
     """real @vsc.randobj classes, bases before derived"""
     built = {}
@@ -155,9 +160,19 @@ def build_classes(scn):
             fn.__name__ = b["name"]
             d[b["name"]] = vsc.constraint(fn)
         if cd.get("pre"):
-            d["pre_randomize"] = lambda self: CB_LOG.append(("pre", id(self)))
+            def pre(self, _ps=cd.get("preset")):
+                CB_LOG.append(("pre", id(self)))
+                if _ps is not None:
+                    # a value assigned here to a non-random field is the one the solver has to see
+                    setattr(self, _ps["field"], _ps["val"])
+                    PRESETS.append((id(self), _ps["field"], _ps["val"]))
+            d["pre_randomize"] = pre
         if cd.get("post"):
-            d["post_randomize"] = lambda self: CB_LOG.append(("post", id(self)))
+            def post(self):
+                CB_LOG.append(("post", id(self)))
+                if SNAP[0] is not None:
+                    POST_SNAPS.append((id(self), SNAP[0]()))
+            d["post_randomize"] = post
         _n[0] += 1
         cls = type("%s_%d" % (cname, _n[0]), (base,) if base is not object else (object,), d)
         built[cname] = vsc.randobj(cls)
@@ -239,6 +254,9 @@ def run_world(scn):
             before = read_values(root, spaths)
             del CB_LOG[:]
             del S.EV[:]
+            del PRESETS[:]
+            del POST_SNAPS[:]
+            SNAP[0] = lambda _r=root: read_values(_r, spaths)
             outcome, exc = "ok", None
             try:
                 target.set_randstate(RandState.mkFromSeed(op["seed"]))
@@ -269,11 +287,19 @@ def run_world(scn):
                                  "answers": [a if a == "unsat" else {"sat": [[pidx[x], v] for x, v in a["sat"].items() if x in pidx]}
                                              for a in r["answers"]]})
             cbs = [(ph, idmap.get(i, "?")) for ph, i in CB_LOG]
+            SNAP[0] = None
+            # values assigned by pre_randomize are part of the state the call starts from
+            for oid, fname, val in PRESETS:
+                pth = idmap.get(oid, "?")
+                key = (pth + "." if pth else "") + fname
+                if key in before:
+                    before[key] = val
+            snaps = [(idmap.get(i, "?"), sv) for i, sv in POST_SNAPS]
             req = {"op": "o.call", "classes": scn["classes"], "root": scn["root"], "rand_mode": list(rm_hist), "cmode": list(cm_hist),
                    "inst": inst,
                    "target": op["target"], "inline": op.get("inline"), "values": before, "rec": recs, "enumLimit": 13,
                    "implFinal": after if outcome == "ok" else None}
             out.append({"op": op, "before": before, "after": after, "outcome": outcome, "exc": exc, "obs": obs, "uncon": uncon,
-                        "used": used, "callbacks": cbs, "blocks": read_blocks(root, scn), "req": req,
+                        "used": used, "callbacks": cbs, "post_snaps": snaps, "blocks": read_blocks(root, scn), "req": req,
                         "names": [".".join(p) for p, _ in spaths]})
     return out
